@@ -7,6 +7,8 @@ fn main() {
         let acts = script::parse(&text);
         let erased = text.lines().any(|l| l.trim() == "mode erased");
         rsv_harness::ERASED.store(erased, std::sync::atomic::Ordering::Relaxed);
+        let realtime = text.lines().any(|l| l.trim() == "mode realtime");
+        rsv_harness::REALTIME.store(realtime, std::sync::atomic::Ordering::Relaxed);
         // a crash of the harness itself on one script must not take the others down
         let r = std::panic::catch_unwind(|| run_script(&acts));
         match r {
